@@ -396,6 +396,12 @@ func c19r1(c *Ctx) {
 					guarded[a.field] = true
 					continue
 				}
+				if a.write && a.field != mutField && (la.mutex == "" || la.state[a.in] == lkU) && !ctors[m] {
+					// a helper that stores while its callers hold the write lock (`e.mut.Lock(); e.setCost(c); e.mut.Unlock()`)
+					if held, _ := heldAtCallSites(c.P, m, las, lkW, 0); held {
+						guarded[a.field] = true
+					}
+				}
 				if la.mutex == "" {
 					continue
 				}
@@ -518,6 +524,29 @@ func c19r1(c *Ctx) {
 					written[a.field] = true
 				}
 			}
+			// writes made by helper methods of the same object called inside the write-locked region
+			var below func(fn *ssa.Function, depth int)
+			below = func(fn *ssa.Function, depth int) {
+				for _, b := range fn.Blocks {
+					for _, in := range b.Instrs {
+						call, ok := in.(*ssa.Call)
+						if !ok || call.Call.StaticCallee() == nil || len(call.Call.Args) == 0 || call.Call.Args[0] != ssa.Value(fn.Params[0]) {
+							continue
+						}
+						h := call.Call.StaticCallee()
+						if _, isMethod := las[h]; !isMethod || depth > 2 || (fn == set && ls.state[in] != lkW) {
+							continue
+						}
+						for _, a := range fieldAccesses(h) {
+							if a.write {
+								written[a.field] = true
+							}
+						}
+						below(h, depth+1)
+					}
+				}
+			}
+			below(set, 0)
 			regions += len(helperCalls) // each call of a locked-store helper is one write-locked region
 			missing := []string{}
 			for g := range guarded {
@@ -781,6 +810,8 @@ func c19r5(c *Ctx) {
 						// lock state checked by R1
 					case c.P.implementsMethod(fn, "AcceptPayableHandler", "SetPayableHandler") && strings.HasSuffix(fa.Type().(*types.Pointer).Elem().String(), ".PayableHandler"):
 						// listed exception: configuration time
+					case onlyBelowSetters(c.P, fn, r.Ctor, 0):
+						// an unexported helper reached only from the constructor / SetNewGasConfig: lock state checked by R1
 					default:
 						bad = append(bad, "field ."+f+" written in "+fn.Name()+" at "+c.P.InstrPos(st))
 					}
@@ -798,6 +829,28 @@ func c19r5(c *Ctx) {
 	}
 }
 
+// onlyBelowSetters: fn is an unexported function whose every call site lies in the constructor, in a SetNewGasConfig method
+// or in another function of which the same holds.
+func onlyBelowSetters(p *Prog, fn, ctor *ssa.Function, depth int) bool {
+	if depth > 3 || isExportedAPI(fn) || len(p.Callers[fn]) == 0 {
+		return false
+	}
+	n := 0
+	for _, cs := range p.Callers[fn] {
+		caller := cs.Parent()
+		if !p.Src(caller) {
+			continue
+		}
+		n++
+		if caller == ctor || caller.Name() == "SetNewGasConfig" && caller.Signature.Recv() != nil {
+			continue
+		}
+		if !onlyBelowSetters(p, caller, ctor, depth+1) {
+			return false
+		}
+	}
+	return n > 0
+}
 
 // c19r6: "execute concurrently without data races": executions hold only the read lock, so an append onto a shared base
 // must allocate — the base has no spare capacity (C13-R2).
